@@ -7,3 +7,7 @@ func raceRelease(p any)             {}
 func raceReleaseMerge(p any)        {}
 func raceWGFirstAdd(wg *WaitGroup)  {}
 func raceWGFirstWait(wg *WaitGroup) {}
+
+func raceAcquireAddr(p *uint32)      {}
+func raceReleaseAddr(p *uint32)      {}
+func raceReleaseMergeAddr(p *uint32) {}
